@@ -24,8 +24,21 @@ head = subprocess.check_output(["git", "-C", "/repo", "rev-parse", "--short", "H
 lock = threading.Lock()
 
 
+OVERRIDE = {}
+for a in list(args):
+    if ":" in a:                      # seed:CHECK runs a sibling check instead of the seed's own
+        sd, ck = a.split(":")
+        OVERRIDE[sd + ":" + ck] = (sd, ck)
+
+
 def prop(s):
+    if s in OVERRIDE:
+        return OVERRIDE[s][1]
     return json.load(open(f"{V}/seeded/{s}/meta.json"))["property"]
+
+
+def sname(s):
+    return OVERRIDE[s][0] if s in OVERRIDE else s
 
 
 def run_one(lane, s, pid=None):
@@ -36,7 +49,7 @@ def run_one(lane, s, pid=None):
     subprocess.check_call(["git", "-C", clone, "checkout", "-q", "--", "."])
     subprocess.check_call(["git", "-C", clone, "clean", "-fdq"])
     pid = pid or prop(s)
-    r = subprocess.run(["git", "-C", clone, "apply", f"{V}/seeded/{s}/patch.diff"], capture_output=True, text=True)
+    r = subprocess.run(["git", "-C", clone, "apply", f"{V}/seeded/{sname(s)}/patch.diff"], capture_output=True, text=True)
     if r.returncode != 0:
         res, summ = "PATCH-DOES-NOT-APPLY", r.stderr.strip()[:200]
     else:
@@ -55,7 +68,7 @@ def run_one(lane, s, pid=None):
     subprocess.call(["git", "-C", clone, "checkout", "-q", "--", "."])
     subprocess.call(["git", "-C", clone, "clean", "-fdq"])
     with lock:
-        open(f"{V}/seeded/results.jsonl", "a").write(json.dumps({"seed": s, "check": pid, "tier": "quick", "result": res, "summary": summ, "repo_head": head, "regress": True}) + "\n")
+        open(f"{V}/seeded/results.jsonl", "a").write(json.dumps({"seed": sname(s), "check": pid, "tier": "quick", "result": res, "summary": summ, "repo_head": head, "regress": True}) + "\n")
         print(f"{time.strftime('%H:%M:%S')} {s} [{pid}] {res} :: {summ[:150]}", flush=True)
 
 
